@@ -191,6 +191,7 @@ def evaluate_block(bname, bdict, grids, modifications=None):
         if by_comp[cname] and cname not in comps:
             raise Inconsistent("by-component modification for %r which is not in block %r" % (cname, bname))
     out = {
+        "gridIntSpecs": bool(gname is not None and any(isinstance(v, int) and not isinstance(v, bool) for v in (grids[gname].get("grid contents") or {}).values())),
         "name": bname,
         "flags": flags_from_string(bdict["flags"], strict=True) if bdict.get("flags") else flags_from_string(bname),
         "gridName": gname,
